@@ -61,12 +61,16 @@ Section Oracles.
     nonempty (children "parts" t) = true -> unclosed_arith (attr_d "value" t) = true ->
     In Ask (r_wp (ev t) b c).
   Proof. exact (unclosed_arith_asks simple astr mredir cdres injrisk rulematch). Qed.
+  Theorem C01_lost_substitution : forall c k ss fs ks, let t := T k ss fs ks in
+    substitutions_lost (attr_d "value" t) t = true -> In Ask (r_wp (ev t) false c).
+  Proof. exact (lost_substitution_asks simple astr mredir cdres injrisk rulematch). Qed.
   Theorem C01_unclosed_arith_cmd : forall c ss fs ks, let t := T $"arith-cmd" ss fs ks in
     unclosed_arith (attr_d "raw_content" t) = true -> walk c t <> Allow.
   Proof. exact (unclosed_arith_cmd_asks simple astr mredir cdres injrisk rulematch). Qed.
 End Oracles.
 Print Assumptions C01_unclosed_arith_word.
 Print Assumptions C01_unclosed_arith_cmd.
+Print Assumptions C01_lost_substitution.
 Print Assumptions C01_step.
 Print Assumptions C01_walker_complete.
 Print Assumptions C01_raw_positions.
